@@ -227,7 +227,12 @@ func (c *Ctx) ruleLookupTables(cfg string) {
 			}
 			d := s.d
 			tbl := s.newStruct(t.typ, "table", nil)
-			entries := tbl.Obj.Val.(*absint.Agg).Elems[0].(*absint.Agg)
+			entries := tableEntries(tbl)
+			if entries == nil || len(entries.Elems) != t.n {
+				o.OK = false
+				o.Detail = fmt.Sprintf("UNDECIDED: %s is not (a struct around) an array of %d entries", t.typ, t.n)
+				break
+			}
 			for i := 0; i < t.n; i++ {
 				fields := map[string]absint.Val{}
 				for _, fn := range t.fields {
@@ -307,7 +312,12 @@ func (c *Ctx) ruleLookupTables(cfg string) {
 			c.Set.Add(o)
 			continue
 		}
-		arr := tbl.Obj.Val.(*absint.Agg).Elems[0].(*absint.Agg)
+		arr := tableEntries(tbl)
+		if arr == nil {
+			o.Detail = fmt.Sprintf("UNDECIDED: %s is not (a struct around) an array of entries", t.typ)
+			c.Set.Add(o)
+			continue
+		}
 		o.OK = len(arr.Elems) == t.n
 		for i, e := range arr.Elems {
 			g, _ := e.(*absint.GV)
@@ -341,7 +351,12 @@ func (c *Ctx) ruleLookupTables(cfg string) {
 			s := c.newGroup(cfg)
 			tt := p.Root.Members[t.typ].Type()
 			tbl := absint.Ptr{Obj: s.in.NewObject("table", tt, nil)}
-			arr := tbl.Obj.Val.(*absint.Agg).Elems[0].(*absint.Agg)
+			arr := tableEntries(tbl)
+			if arr == nil {
+				o.OK = false
+				o.Detail = fmt.Sprintf("UNDECIDED: %s is not (a struct around) an array of entries", t.typ)
+				break
+			}
 			for i := range arr.Elems {
 				arr.Elems[i] = s.d.Sym(fmt.Sprintf("E%d", i))
 			}
@@ -579,4 +594,26 @@ func (c *Ctx) ruleVarTimeLoops(cfg string) {
 			}
 		}
 	}
+}
+
+// tableEntries: the entry array of a lookup table object, whether the table type is the array itself
+// (type T [8]entry) or a struct holding it (type T struct{ points [8]entry }).
+func tableEntries(tbl absint.Ptr) *absint.Agg {
+	top, ok := tbl.Obj.Val.(*absint.Agg)
+	if !ok {
+		return nil
+	}
+	switch tbl.Obj.Type.Underlying().(type) {
+	case *types.Array:
+		return top
+	case *types.Struct:
+		st := tbl.Obj.Type.Underlying().(*types.Struct)
+		for i := 0; i < st.NumFields() && i < len(top.Elems); i++ {
+			if _, isArr := st.Field(i).Type().Underlying().(*types.Array); isArr {
+				a, _ := top.Elems[i].(*absint.Agg)
+				return a
+			}
+		}
+	}
+	return nil
 }
